@@ -3,7 +3,13 @@
 Input engine: a compatible baseline pair (dest, src) of Section trees (depth 2, matched /
 dest-only / src-only children on every level) deviated by up to two variations - attribute
 states, dtype/value relations, Section type clashes - placed at every depth and combined with
-every order of the source's children; x strict on/off.  Oracle: ref/merge.py."""
+every order of the source's children; x strict on/off.  Oracle: ref/merge.py.
+
+Second layer "sequences": the destination carries state from earlier merges.  Two (three) merges in a row into one
+destination - sources drawn from a family derived from the pair generator, the later source re-shaped (same names /
+fresh names for what only it has / fresh Property names / other values / disjoint / childless), the same object
+again, a clone of the first source, an earlier or later merge one or two levels further down, every combination of
+strict - each step judged by the reference model applied to (destination as it was before the step, source)."""
 import copy
 import itertools
 
@@ -16,7 +22,12 @@ LEVEL = "model_checking"
 RULE = ("baseline (dest, src) pair of depth-2 Section trees with matched, dest-only and src-only children x "
         "all single variations and all pairs of variations (attribute state per attribute and location, dtype / "
         "value relation per matched Property, type clash per matched Section) x 6 orders of the source's children "
-        "x strict on/off; non-trivial = merge raised, or changed the destination")
+        "x strict on/off; non-trivial = merge raised, or changed the destination.  Sequences: destination of the "
+        "baseline x first source (family of single variations) x later source (family of single variations x 6 "
+        "shapes: same names, fresh names for source-only children, fresh Property names, other values, disjoint, "
+        "childless | the same object | a clone of the first) x level of either merge (destination, child, "
+        "grandchild) x all strict combinations, and first-second-first; every step judged by the reference model "
+        "on (destination before the step, source)")
 WATCHDOG_S = 30
 
 
@@ -151,6 +162,15 @@ def apply_var(dest, src, var):
         elif kind == "src-untyped-text":
             d.update(dtype="text", values=["a\nb"])
             s.update(dtype="string", values=["c"])
+        elif kind == "tuple-both":          # sequences layer only (SEQ_DTYPE_KINDS)
+            d.update(dtype="2-tuple", values=["(1;2)"])
+            s.update(dtype="2-tuple", values=["(1;2)", "(3;4)"])
+        elif kind == "tuple-equal":
+            d.update(dtype="2-tuple", values=["(1;2)"])
+            s.update(dtype="2-tuple", values=["(1;2)"])
+        elif kind == "tuple-other-length":
+            d.update(dtype="2-tuple", values=["(1;2)"])
+            s.update(dtype="3-tuple", values=["(1;2;3)"])
     elif k == "stype":
         find_sec(src, var[1])["type"] = "other"
     elif k == "xkind":
@@ -216,6 +236,8 @@ def var_class(v):
 
 
 def run_case(case):
+    if case.get("layer") == "sequences":
+        return run_seq_case(case)
     try:
         dest, src = build_pair(case)
     except Exception as exc:
@@ -265,19 +287,307 @@ def run_case(case):
             "nontrivial": int(raised is not None or after != before), "execs": 1, "states": 1}
 
 
+# ------------------------------------------------------------------ layer "sequences": destinations with a history
+
+SEQ_DTYPE_KINDS = ["tuple-both", "tuple-equal", "tuple-other-length"]
+SEQ_SHAPES = ["same-names", "fresh-only-children", "fresh-properties", "other-values", "disjoint-top", "childless"]
+STRICT_COMBOS = [[True, True], [True, False], [False, True], [False, False]]
+# (where the first merge takes place, where the second one does): "" is the destination itself
+SEQ_LEVELS = [["A", ""], ["B", ""], ["B/C", ""], ["", "A"], ["", "B"]]
+
+
+def reshape(src, shape):
+    """The later source of a sequence, re-shaped relative to the earlier one (which keeps the baseline names)."""
+    def walk(sec):
+        yield sec
+        for c in sec["sections"]:
+            for x in walk(c):
+                yield x
+    if shape == "fresh-only-children":
+        # what only the source has gets a name the earlier source did not use: the destination's gains from the
+        # earlier merge are children the later source lacks
+        find_sec(src, "sonly")["name"] = "sonly2"
+        for pr in find_sec(src, "A")["properties"]:
+            if pr["name"] == "n":
+                pr["name"] = "n2"
+        for c in find_sec(src, "B")["sections"]:
+            if c["name"] == "E":
+                c["name"] = "E2"
+    elif shape == "fresh-properties":
+        for sec in walk(src):
+            for pr in sec["properties"]:
+                pr["name"] += "2"
+    elif shape == "other-values":
+        # the Properties only the source has hold another value than those of the earlier source
+        for loc, name, vals in (("A", "n", [9, 10]), ("sonly", "z", ["w2"])):
+            for pr in find_sec(src, loc)["properties"]:
+                if pr["name"] == name:
+                    pr["values"] = vals
+    elif shape == "disjoint-top":
+        for c in src["sections"]:
+            c["name"] += "2"
+        for pr in src["properties"]:
+            pr["name"] += "2"
+    elif shape == "childless":
+        src["sections"], src["properties"] = [], []
+    src["name"] = "s2"
+
+
+def _pick(vs, kind, locs=None, attrs=None, states=None):
+    out = []
+    for v in vs:
+        if v[0] != kind or (locs is not None and v[1] not in locs):
+            continue
+        if kind in ("sattr", "pattr") and ((attrs is not None and v[2] not in attrs) or
+                                           (states is not None and v[3] not in states)):
+            continue
+        if kind == "dtype" and states is not None and v[2] not in states:
+            continue
+        if kind == "xkind" and states is not None and v[2] not in states:
+            continue
+        out.append(v)
+    return out
+
+
+def seq_families(tier):
+    """(first, second, lite, small): lists of variation lists (lite: later sources, small: first sources of the
+    sequences with a merge further down).  The first source comes with its destination (the
+    destination side of the variation is applied), of the later source only the source side is used."""
+    vs = variations() + [["dtype", "A:q", k] for k in SEQ_DTYPE_KINDS]
+    first = [[]]
+    first += [[v] for v in _pick(vs, "sattr", states=("unset-set", "set-unset"))]
+    first += [[v] for v in _pick(vs, "pattr", ("A:p",), ("unit", "definition"), ("unset-set", "set-unset"))]
+    first += [[v] for v in _pick(vs, "pattr", ("B/C:r",), ("unit",), ("unset-set",))]
+    first += [[["unc", "A:p", None, 0]], [["unc", "A:p", 0, None]]]
+    first += [[v] for v in _pick(vs, "dtype", ("A:p",), states=("convertible", "convertible-rev", "src-empty",
+                                                                 "dest-empty", "equal-values", "src-float"))]
+    first += [[v] for v in _pick(vs, "dtype", ("B/C:r",), states=("dest-empty",))]
+    first += [[v] for v in _pick(vs, "dtype", ("A:q",), states=("tuple-both",))]
+    first += [[v] for v in _pick(vs, "xkind", ("A",), states=("src", "both"))]
+    second = [[]]
+    second += [[v] for v in _pick(vs, "sattr", states=("unset-set", "soft", "hard"))]
+    second += [[v] for v in _pick(vs, "pattr", ("A:p",), states=("unset-set", "soft", "hard"))]
+    second += [[v] for v in _pick(vs, "pattr", ("B/C:r",), ("unit", "definition"), ("unset-set", "soft", "hard"))]
+    second += [[["unc", "A:p", None, b]] for b in (0, 0.5, 0.7)] + [[["unc", "B/C:r", None, 0.5]]]
+    second += [[v] for v in _pick(vs, "dtype", ("A:p",))]
+    second += [[v] for v in _pick(vs, "dtype", ("B/C:r",), states=("convertible", "unconvertible"))]
+    second += [[v] for v in _pick(vs, "dtype", ("A:q",), states=SEQ_DTYPE_KINDS)]
+    second += [[v] for v in _pick(vs, "stype")]
+    second += [[v] for v in _pick(vs, "xkind", states=("src",))]
+    lite = [[]]
+    lite += [[v] for v in _pick(vs, "sattr", attrs=("definition",), states=("unset-set", "hard"))]
+    lite += [[v] for v in _pick(vs, "pattr", ("A:p", "B/C:r"), ("unit",), ("unset-set", "hard"))]
+    lite += [[v] for v in _pick(vs, "dtype", ("A:p",), states=("convertible", "unconvertible", "src-empty"))]
+    lite += [[v] for v in _pick(vs, "dtype", ("B/C:r",), states=("convertible",))]
+    lite += [[["stype", "B/C"]], [["xkind", "A", "src"]]]
+    small = first
+    if tier == "thorough":
+        first, lite = first + [x for x in second if x not in first], second
+        second = [[]] + [[v] for v in vs]
+    return first, second, lite, small
+
+
+def _sources_of(case):
+    """Specs (dest, first, second-or-None) of a sequence case."""
+    dest, first = baseline()
+    for v in case["vars1"]:
+        apply_var(dest, first, v)
+    if case["rel"] != "other":
+        return dest, first, None
+    scratch, second = baseline()        # the destination side of the later variation is not used
+    for v in case["vars2"]:
+        apply_var(scratch, second, v)
+    perm = list(itertools.permutations(range(3)))[case.get("order2", 0)]
+    second["sections"] = [second["sections"][i] for i in perm]
+    a = find_sec(second, "A")
+    a["properties"] = [a["properties"][i] for i in perm]
+    reshape(second, case["shape"])
+    return dest, first, second
+
+
+def gen_seq_cases(tier):
+    first, second, lite, small = seq_families(tier)
+    top_only = [x for x in second if not x or (x[0][0] == "sattr" and x[0][1] == "")]
+    cases, seen, later = [], set(), {}
+
+    def add(**kw):
+        case = {"layer": "sequences", "vars1": kw.get("vars1", []), "vars2": kw.get("vars2", []),
+                "shape": kw.get("shape", "same-names"), "rel": kw.get("rel", "other"),
+                "levels": kw.get("levels", ["", ""]), "strict": kw["strict"], "order2": kw.get("order2", 0)}
+        if case["rel"] == "other":
+            # different variations can give the same later source (only their destination side differs)
+            lk = snapshot.canon([case["vars2"], case["shape"], case["order2"]])
+            if lk not in later:
+                later[lk] = snapshot.canon(_sources_of(dict(case, vars1=[]))[2])
+            key = snapshot.canon([case["vars1"], later[lk], case["levels"], case["strict"]])
+            if key in seen:
+                return
+            seen.add(key)
+        cases.append(case)
+
+    for strict in STRICT_COMBOS:
+        # (1) another source, every shape
+        for shape in SEQ_SHAPES:
+            fam2 = top_only if shape in ("disjoint-top", "childless") else second
+            orders2 = (0, 5) if tier == "thorough" and shape == "same-names" else (0,)
+            for v1 in first:
+                for v2 in fam2:
+                    for o in orders2:
+                        add(vars1=v1, vars2=v2, shape=shape, strict=strict, order2=o)
+        # (2) the same object again; a clone of the first source
+        both = first + [x for x in second if x not in first]
+        for rel in ("same-object", "clone"):
+            for v1 in both:
+                add(vars1=v1, rel=rel, strict=strict)
+        # (3) one of the two merges takes place further down in the destination
+        for levels in SEQ_LEVELS:
+            for shape in ("same-names", "fresh-only-children"):
+                for v1 in small:
+                    for v2 in lite:
+                        add(vars1=v1, vars2=v2, shape=shape, levels=levels, strict=strict)
+    # (4) three merges: first, second, first again
+    for strict in (True, False):
+        for shape in ("same-names", "fresh-only-children"):
+            for v1 in first:
+                for v2 in lite:
+                    add(vars1=v1, vars2=v2, shape=shape, rel="other", strict=[strict, strict, strict])
+    return cases
+
+
+def _sub(snp, loc):
+    cur = snp
+    if loc:
+        for part in loc.split("/"):
+            cur = [c for c in cur["sections"] if c["name"] == ["str", repr(part)]][0]
+    return cur
+
+
+def _obj(root, loc):
+    cur = root
+    if loc:
+        for part in loc.split("/"):
+            cur = cur.sections[part]
+    return cur
+
+
+def run_seq_case(case):
+    try:
+        dspec, fspec, sspec = _sources_of(case)
+        dest, first = docs.build_section(dspec), docs.build_section(fspec)
+        if case["rel"] == "other":
+            second = docs.build_section(sspec)
+        elif case["rel"] == "clone":
+            second = first.clone()
+        else:
+            second = first
+    except Exception as exc:
+        return {"failures": [], "outcomes": ["seq:not-buildable:" + type(exc).__name__], "nontrivial": 0, "execs": 0,
+                "states": 0}
+    stricts = case["strict"]
+    sources = [first, second] + ([first] if len(stricts) == 3 else [])
+    levels = list(case["levels"]) + [""] * (len(stricts) - 2)
+    vclasses = [sorted(var_class(v) for v in case["vars1"]), sorted(var_class(v) for v in case["vars2"])]
+    fails, labels, changed, execs = [], [], 0, 0
+    seen_snaps = {}
+
+    def last(o):
+        return seen_snaps[id(o)] if id(o) in seen_snaps else snapshot.snap(o)
+    for step, (src, loc, strict) in enumerate(zip(sources, levels, stricts)):
+        try:
+            dobj, sobj = _obj(dest, loc), _obj(src, loc)
+        except Exception:
+            labels.append("no-such-level")
+            break
+        others = [x for x in (first, second) if x is not src]
+        # nothing happens between two steps: what was observed after a step is the state before the next one
+        whole_b, src_b, others_b = last(dest), last(src), [last(x) for x in others]
+        before, sbefore = _sub(whole_b, loc), _sub(src_b, loc)
+        cls = refm.classify(before, sbefore, strict)
+        try:
+            dobj.merge(sobj, strict=strict)
+            raised = None
+        except Exception as exc:
+            raised = type(exc).__name__
+        execs += 1
+        whole_a, src_a, others_a = snapshot.snap(dest), snapshot.snap(src), [snapshot.snap(x) for x in others]
+        for o, sn in [(dest, whole_a), (src, src_a)] + list(zip(others, others_a)):
+            seen_snaps[id(o)] = sn
+
+        def fail(clause, observed=None, expected=None, explain=""):
+            fails.append(report.failure("merge-sequence", {
+                "clause": clause, "step": step, "strict": stricts, "relation": case["rel"], "shape": case["shape"],
+                "levels": case["levels"], "variations": vclasses, "expectation": cls}, case, observed=observed,
+                expected=expected, explain=explain))
+        if src_a != src_b:
+            d = snapshot.diff(src_b, src_a)
+            fail("source-changed", snapshot.short(d), explain="src differs at %s" % (d[0] if d else "?"))
+        if others_a != others_b:
+            d = snapshot.diff(others_b, others_a)
+            fail("source-of-another-merge-changed", snapshot.short(d),
+                 explain="the Section merged %s differs at %s" % ("earlier" if step else "later", d[0] if d else "?"))
+        if raised is not None:
+            if whole_a != whole_b:
+                d = snapshot.diff(whole_b, whole_a)
+                fail("failed-merge-changed-destination", snapshot.short(d),
+                     explain="dest differs at %s after %s" % (d[0] if d else "?", raised))
+            if cls == "must-succeed":
+                fail("compatible-merge-refused", raised)
+            elif cls == "must-raise-valueerror" and raised != "ValueError":
+                fail("conflict-refused-with-wrong-exception", raised, "ValueError")
+        else:
+            if cls in ("must-raise-valueerror", "must-raise"):
+                fail("conflicting-merge-accepted", "returned", cls)
+            else:
+                try:
+                    after = _sub(whole_a, loc)
+                except IndexError:
+                    after = None
+                if after is None:
+                    fail("merged-section-gone-from-its-parent", loc)
+                else:
+                    for clause, detail in refm.post(before, sbefore, after, strict):
+                        fail(clause, detail, explain=detail)
+        changed += int(raised is not None or whole_a != whole_b)
+        labels.append("%s:%s" % (cls, raised or "ok"))
+    seen, uniq = set(), []
+    for f in fails:
+        k = (f["desc"]["clause"], f["desc"]["step"])
+        if k not in seen:
+            seen.add(k)
+            uniq.append(f)
+    return {"failures": uniq, "outcomes": ["seq:" + ">".join(labels)], "nontrivial": int(changed > 0),
+            "execs": execs, "states": 1}
+
+
 def check(tier):
     run = report.Run(PROP, tier, LEVEL, RULE, assumptions=[
         "text attributes differing in case/whitespace only: raising or succeeding are both accepted in strict mode",
         "where the postcondition is unachievable (unconvertible value, same-named Section of another type) any "
         "exception type is accepted, only 'raises and changes nothing' is demanded",
         "order of added children and ids of copies are not judged",
+        "Properties of n-tuple values: a refusal that changes nothing and a merge that fulfils the postcondition "
+        "are both accepted (sequences layer only)",
+        "sequences: the Section merged in another step of the sequence must stay unchanged as well",
     ])
     cases = gen_cases(tier)
     run.bounds = {"variations": len(variations()), "deviation_bound": 2, "source_child_orders": 6,
                   "orders_for_pairs": 6 if tier == "thorough" else 2,
                   "variation_deviations": 2 if tier == "quick" else "2 complete + 3 over every third variation"}
     run.layer("pairs", cases=len(cases))
-    par.run_cases(run, "checks.c13", cases, nchunks=par.JOBS * 16)
+    seq = gen_seq_cases(tier)
+    fam = seq_families(tier)
+    run.bounds.update({"sequence_length": "2 (3 for first-second-first)", "sequence_first_sources": len(fam[0]),
+                       "sequence_later_sources": len(fam[1]), "sequence_later_sources_small": len(fam[2]),
+                       "sequence_first_sources_further_down": len(fam[3]),
+                       "sequence_shapes_of_later_source": len(SEQ_SHAPES), "sequence_levels": 1 + len(SEQ_LEVELS),
+                       "sequence_strict_combinations": len(STRICT_COMBOS)})
+    by_kind = {}
+    for c in seq:
+        k = ("three-merges" if len(c["strict"]) == 3 else c["rel"] if c["rel"] != "other" else
+             "another-source" if c["levels"] == ["", ""] else "merge-further-down")
+        by_kind[k] = by_kind.get(k, 0) + 1
+    run.layer("sequences", cases=len(seq), **by_kind)
+    par.run_cases(run, "checks.c13", cases + seq, nchunks=par.JOBS * 16)
     return run.finish(reproduce=lambda f: replay(f))
 
 
